@@ -299,6 +299,8 @@ def to_trace(case, res):
                 pid, e = names[parts[1]]
                 events.append(["newUnit", pid, fl[e["cls"][-3:] if not e["cls"].endswith("Trio") else "Trio"] if False else fl[[k for k in fl if e["cls"].endswith(k)][0]]])
                 pids.append(pid)
+                # the loader's frame (inside `with load(...)`) refers to everything it constructed
+                events.append(["hold", pid, 0])
         elif parts[0] == "run-started" and parts[1] in names:
             pid, e = names[parts[1]]
             f = fl[[k for k in fl if e["cls"].endswith(k)][0]]
